@@ -1,5 +1,6 @@
 import BHS.Props.C13
 import BHS.Props.SqlShape
+import BHS.Props.HeaderSvcGen
 open BHS.Props.C13
 #print axioms C13_locator
 #print axioms C13_locator_heights
@@ -21,3 +22,8 @@ open BHS.Props.C13
 #print axioms C13_stop_lower_reachable
 #print axioms C13_getheaders_cap_reachable
 #print axioms BHS.Props.SqlShape.getheaders_statements
+#print axioms BHS.Props.HeaderSvcGen.Gen_locator_refines
+#print axioms BHS.Props.HeaderSvcGen.Gen_getheaders_refines
+#print axioms BHS.Props.HeaderSvcGen.C13_locator_generated
+#print axioms BHS.Props.HeaderSvcGen.C13_getheaders_generated
+#print axioms BHS.Props.HeaderSvcGen.C13_findings_generated
